@@ -1,10 +1,14 @@
 #!/bin/bash
-# usage: trymut.sh <patch.diff> C01 C02 ...   — apply a seeded change to /repo, run the quick checks, undo.
-patch="$1"; shift
-cd /repo && git status --porcelain | grep -q . && { echo "/repo not clean"; exit 2; }
-git apply "$patch" || { echo "patch does not apply"; exit 2; }
-trap 'git -C /repo checkout -- . ' EXIT
-cd /verif
+# usage: trymut.sh <patch.diff> C01 C02 ...
+# apply a seeded change to a scratch worktree of /repo's HEAD and run the quick checks against it
+# (VERIF_REPO), then remove the worktree.  /repo itself is not touched.
+patch="$(readlink -f "$1")"; shift
+wt=/tmp/mut/$(basename "$(dirname "$patch")")_$$
+mkdir -p /tmp/mut
+git -C /repo worktree add -q --detach "$wt" HEAD || exit 2
+trap 'git -C /repo worktree remove --force "$wt"' EXIT
+git -C "$wt" apply "$patch" || { echo "patch does not apply"; exit 2; }
+cd "$(dirname "$(readlink -f "$0")")/.."
 for p in "$@"; do
-  echo "== $p"; timeout 1500 ./check $p --tier quick 2>&1 | grep -E "VIOLATION|KNOWN|: ok|^  " | cut -c1-300 | head -12
+  echo "== $p"; VERIF_REPO="$wt" timeout 1500 ./check $p --tier quick 2>&1 | grep -E "VIOLATION|: ok|^  " | cut -c1-260 | head -8
 done
